@@ -92,8 +92,7 @@ CsUpdate(c, t, m) ==
 Q0(t) == [base |-> [t EXCEPT !.part = <<>>], defs |-> <<>>, where |-> <<>>, having |-> <<>>, gb |-> <<>>, summ |-> FALSE,
           ob |-> <<>>, lim |-> -1, off |-> 0, part |-> t.part]
 
-(* the composition of LIMIT / OFFSET without a subquery (sql.py, SliceHead branch, as fixed) *)
-LimitCompose(lim, off, n, k) == IF lim = -1 THEN <<n, k>> ELSE <<MinI(MaxI(lim - k, 0), n), off + k>>
+(* LimitCompose: the composition of LIMIT / OFFSET without a subquery - defined in ValuesCore.tla, proved correct for all naturals in Proofs.tla *)
 
 Acc(q, m, nid, tnew) ==     \* tnew: the sequential result (only the KIND of the new columns is read from it)
     CASE m.v = "mutate" ->
